@@ -165,6 +165,6 @@ Proof. vm_compute. repeat split. Qed.
 Example outside_examples :
   (exists d, parse_file (txt "typedef list T") = POk [] d) /\
   outside (mkCFile [] [(CITypedef (mkCTypedef [BWs (txt " ")] (CType (CTPath (mkCPath (txt "list") [])) None) [BWs (txt " ")] (txt "T")
-                                    (mkTail [] None SepNone)), [])]) = true /\
+                                    (mkTail [] None SepNone)), [])]) = false /\
   (exists d, parse_file (txt "const i8 c=[5x]") = POk [] d).
 Proof. split; [eexists; vm_compute; reflexivity|]. split; [vm_compute; reflexivity|eexists; vm_compute; reflexivity]. Qed.
